@@ -501,7 +501,20 @@ fn giant_strategy(tier: Tier, python: bool) -> BoxedStrategy<GiantCase> {
             let p = RecParams { max_records: 3, scale: k, max_len: 100, degenerate_w: 1, bounds: [k, 0, 0], nuc_only: false };
             let writer = if mmap && norm { Writer::Mmap } else { Writer::Batch };
             let lo = if python { 900_000 } else { 60_000 };
-            (prop_oneof![2 => gen::giant(lo, hi, b"ACGTN".to_vec()), 1 => gen::giant_near_one(hi.min(3_400_000))], gen::records(p)).prop_map(move |(giant, small)| GiantCase { giant, small, k, norm, writer, delim: delim.to_string(), threads, header, at })
+            // the pseudo-random arm: a record of 1.5 - 60 kb that meets (nearly) every canonical k-mer of k = 6 / 7, with the
+            // small records after it on few threads (per-thread or per-object scratch space sized for sparse rows)
+            let rich = if python { gen::giant(lo, hi, b"ACGTN".to_vec()) } else { gen::giant_random(1_500, 60_000, b"ACGTN".to_vec()) };
+            (prop_oneof![2 => gen::giant(lo, hi, b"ACGTN".to_vec()), 1 => gen::giant_near_one(hi.min(3_400_000)), 1 => rich], gen::records(p)).prop_map(move |(giant, small)| {
+                let (mut k, mut threads, mut at) = (k, threads, at);
+                if giant.rand_seed.is_some() {
+                    k = 6 + (at as usize % 2);
+                    threads = 1 + (threads % 2);
+                    if at % 4 != 3 {
+                        at = 0;
+                    }
+                }
+                GiantCase { giant, small, k, norm, writer, delim: delim.to_string(), threads, header, at }
+            })
         })
         .boxed()
 }
